@@ -254,8 +254,28 @@ def main(argv):
     opts = json.loads(argv[3]) if len(argv) > 3 else {}
     max_len = opts.get("max_len", 4)
     n, found = 0, None
-    for s in cases(max_len):
+    # long diagrams with a timespan that is no dyadic fraction: the time of a marble is (column index) * timespan + shift EXACTLY - one
+    # multiplication, not a sum accumulated token by token
+    LONG = ["-a-b-c-d-e-f-g-h-|", "--a--b--c--d--|", "a-(bc)--d---e-f-g-#", "-a-a-a-a--b-----------c|"]
+    for s in [None] + list(cases(max_len)):
         todo = []
+        if s is None:
+            for ls in LONG:
+                for ts, sh in ((0.1, 0), (0.1, 200.0), (0.3, 0.7)):
+                    todo.append({"s": ls, "timespan": ts, "shift": sh, "lookup": 1, "raise_stopped": False})
+            s = ""
+            for c in todo:
+                n += 1
+                try:
+                    r = run_case(c)
+                except Exception as e:  # noqa: BLE001
+                    r = f"the case raised {e!r}"
+                if r:
+                    found = {"case": c, "disagreement": r}
+                    break
+            if found:
+                break
+            continue
         for li in range(len(LOOKUPS)):
             for rs in (False, True):
                 todo.append({"s": s, "timespan": 10, "shift": 0, "lookup": li, "raise_stopped": rs})
